@@ -51,6 +51,16 @@ func (x *FnExec) modLocs(fr *Frame, entry *State, c *Contract, rv Value, haveRes
 				}
 				return true
 			}
+			if sc, isCall := m.E.(*SCall); isCall {
+				if id, ok := sc.Fun.(*SIdent); ok && id.Name == "alloftype" {
+					t := ev.lookupType(showSpec(sc.Args[0]))
+					if t == nil {
+						unsupp("alloftype: unknown type %s", showSpec(sc.Args[0]))
+					}
+					ml = modLoc{prefix: "obj:" + typeKey(t), wholeKey: true}
+					return true
+				}
+			}
 			p := ev.evalPlace(m.E)
 			if p == nil {
 				unsupp("modifies %s: not a location", m.Text)
